@@ -421,7 +421,7 @@ def run(ctx):
     ctx.cov.update({
         'states': stats['states'], 'transitions': stats['transitions'] + nb + n3,
         'traces_validated_against_impl': stats['transitions'],
-        'samples': [sample or [], ['one', ['tick', 0], ['refuse', 0], ['tick', 10], ['tick', 10]]],
+        'samples': [sample or []],
         'event_kinds': kinds, 'dials_monitored': stats['dials'], 'peer_file_checks': stats['file_checks'] + n3,
         'crash_snapshots_checked': stats['snapshots'] + snaps3, 'backoff_table_cases': nb, 'depth': depth, 'depth_from_prefix_states': pdepth, 'exhaustive': True,
         'rule': "BFS to depth %d from 4 initial peer books over events {tick(+0,9,10,11,20,40,1800 s), dial established/refused, "
